@@ -12,6 +12,7 @@ import (
 	"crypto/x509/pkix"
 	"fmt"
 	"math/big"
+	stdx509key "crypto/x509"
 	"strings"
 	"testing"
 	"time"
@@ -21,6 +22,8 @@ import (
 	"github.com/google/certificate-transparency-go/internal/verifkit"
 	"github.com/google/certificate-transparency-go/loglist3"
 	"github.com/google/certificate-transparency-go/trillian/ctfe"
+	ctfeconfigpb "github.com/google/certificate-transparency-go/trillian/ctfe/configpb"
+	"github.com/google/trillian/crypto/keyspb"
 	"github.com/google/certificate-transparency-go/x509"
 	"github.com/google/certificate-transparency-go/x509util"
 	tspb "google.golang.org/protobuf/types/known/timestamppb"
@@ -33,6 +36,7 @@ type pki struct {
 	key    *ecdsa.PrivateKey
 	pool   *x509util.PEMCertPool
 	serial int64
+	pubDER []byte
 }
 
 func newPKI(t *testing.T) *pki {
@@ -43,8 +47,9 @@ func newPKI(t *testing.T) *pki {
 		t.Fatal(err)
 	}
 	p.key, _ = ecdsa.GenerateKey(elliptic.P256(), rand.Reader)
+	p.pubDER, _ = stdx509key.MarshalPKIXPublicKey(&p.caKey.PublicKey)
 	tmpl := &stdx509.Certificate{SerialNumber: big.NewInt(1), Subject: pkix.Name{CommonName: "verif C18 root"},
-		NotBefore: time.Unix(0, 0), NotAfter: time.Date(2200, 1, 1, 0, 0, 0, 0, time.UTC), IsCA: true, BasicConstraintsValid: true,
+		NotBefore: time.Date(1500, 1, 1, 0, 0, 0, 0, time.UTC), NotAfter: time.Date(9999, 12, 31, 23, 59, 59, 0, time.UTC), IsCA: true, BasicConstraintsValid: true,
 		KeyUsage: stdx509.KeyUsageCertSign}
 	p.caDER, err = stdx509.CreateCertificate(rand.Reader, tmpl, tmpl, &p.caKey.PublicKey, p.caKey)
 	if err != nil {
@@ -63,7 +68,7 @@ func newPKI(t *testing.T) *pki {
 func (p *pki) leaf(notAfter time.Time) []byte {
 	p.serial++
 	tmpl := &stdx509.Certificate{SerialNumber: big.NewInt(1000 + p.serial), Subject: pkix.Name{CommonName: "leaf"},
-		NotBefore: time.Unix(1, 0), NotAfter: notAfter}
+		NotBefore: time.Date(1500, 1, 1, 0, 0, 1, 0, time.UTC), NotAfter: notAfter}
 	der, err := stdx509.CreateCertificate(rand.Reader, tmpl, p.caCert, &p.key.PublicKey, p.caKey)
 	if err != nil {
 		panic(err)
@@ -71,16 +76,54 @@ func (p *pki) leaf(notAfter time.Time) []byte {
 	return der
 }
 
+// ns renders an instant as decimal nanoseconds since the Unix epoch, exactly (years 1..9999 do not fit int64).
+func ns(t time.Time) string {
+	v := new(big.Int).Mul(big.NewInt(t.Unix()), big.NewInt(1000000000))
+	return v.Add(v, big.NewInt(int64(t.Nanosecond()))).String()
+}
+
 func optStr(t *time.Time) string {
 	if t == nil {
 		return "-"
 	}
-	return fmt.Sprint(t.UnixNano())
+	return ns(*t)
 }
 
-// inWin is the declarative statement of the property in integer nanoseconds.
+// cmpT orders instants by (seconds, nanoseconds) without using time.Time's own comparison methods.
+func cmpT(a, b time.Time) int {
+	switch {
+	case a.Unix() != b.Unix():
+		if a.Unix() < b.Unix() {
+			return -1
+		}
+		return 1
+	case a.Nanosecond() != b.Nanosecond():
+		if a.Nanosecond() < b.Nanosecond() {
+			return -1
+		}
+		return 1
+	}
+	return 0
+}
+
+// inWin is the declarative statement of the property: start <= t < limit with optional bounds.
 func inWin(lo, up *time.Time, t time.Time) bool {
-	return (lo == nil || lo.UnixNano() <= t.UnixNano()) && (up == nil || t.UnixNano() < up.UnixNano())
+	return (lo == nil || cmpT(*lo, t) <= 0) && (up == nil || cmpT(t, *up) < 0)
+}
+
+// reloc returns the same instant carried in another Location (zone information must never matter).
+func reloc(r *verifkit.Rand, t time.Time) time.Time {
+	switch r.Intn(5) {
+	case 0:
+		return t.In(time.FixedZone("plus1", 3600))
+	case 1:
+		return t.In(time.FixedZone("zero", 0))
+	case 2:
+		return time.Unix(t.Unix(), int64(t.Nanosecond())) // time.Local
+	case 3:
+		return t.UTC()
+	}
+	return t
 }
 
 func ts(t *time.Time) *tspb.Timestamp {
@@ -95,7 +138,10 @@ func TestVerifC18(t *testing.T) {
 	defer out.Close()
 	r := verifkit.NewRand(verifkit.Seed())
 	p := newPKI(t)
-	base := time.Date(2031, 3, 4, 5, 6, 7, 0, time.UTC)
+	bases := []time.Time{time.Date(2031, 3, 4, 5, 6, 7, 0, time.UTC), time.Date(2031, 3, 4, 5, 6, 7, 0, time.UTC), time.Date(2031, 3, 4, 5, 6, 7, 0, time.UTC),
+		time.Date(9998, 6, 1, 0, 0, 0, 0, time.UTC), time.Date(2262, 4, 11, 23, 0, 0, 0, time.UTC), time.Date(2300, 1, 1, 0, 0, 0, 0, time.UTC),
+		time.Date(3000, 6, 1, 0, 0, 0, 0, time.UTC), time.Date(1960, 1, 1, 0, 0, 0, 0, time.UTC), time.Date(1677, 9, 21, 0, 0, 0, 0, time.UTC), time.Date(1600, 1, 1, 0, 0, 0, 0, time.UTC)}
+	base := bases[0]
 	deltas := []time.Duration{0, 1, -1, time.Second, -time.Second, time.Second - 1, 1 - time.Second, 500 * time.Millisecond, time.Hour, -time.Hour, 24 * time.Hour}
 	pick := func(around time.Time) *time.Time {
 		if r.Intn(6) == 0 {
@@ -113,18 +159,30 @@ func TestVerifC18(t *testing.T) {
 	n := verifkit.N(1500, 40000)
 	for it := 0; it < n; it++ {
 		// instant: whole seconds for certificates; sub-second for the two APIs that accept any time.Time
+		base = bases[r.Intn(len(bases))]
 		tt := base.Add(time.Duration(r.Intn(100000)) * time.Second)
 		lo, up := pick(tt), pick(tt)
 		if r.Intn(3) == 0 && lo != nil {
 			v := lo.Add(time.Duration(1+r.Intn(5)) * time.Hour)
 			up = &v
 		}
-		key := fmt.Sprintf("win lo=%s up=%s t=%d", optStr(lo), optStr(up), tt.UnixNano())
+		key := fmt.Sprintf("win lo=%s up=%s t=%s", optStr(lo), optStr(up), ns(tt))
 		want := inWin(lo, up, tt)
 		// 1. the log server
 		a := "x"
 		if pn := verifkit.Guard(func() {
-			opts := ctfe.NewCertValidationOpts(p.pool, time.Time{}, false, false, lo, up, false, nil)
+			// the window reaches the server the way an operator configures it: LogConfig -> ValidateLogConfig -> validation options
+			vcfg, cerr := ctfe.ValidateLogConfig(&ctfeconfigpb.LogConfig{LogId: 7, Prefix: "shard", IsMirror: true,
+				PublicKey: &keyspb.PublicKey{Der: p.pubDER}, NotAfterStart: ts(lo), NotAfterLimit: ts(up)})
+			if cerr != nil {
+				if lo != nil && up != nil && cmpT(*up, *lo) < 0 {
+					a = "x" // limit before start: refused by configuration validation
+					return
+				}
+				out.Fail(key, "ValidateLogConfig refused an ordered window: "+cerr.Error())
+				return
+			}
+			opts := ctfe.NewCertValidationOpts(p.pool, time.Time{}, false, false, vcfg.NotAfterStart, vcfg.NotAfterLimit, false, nil)
 			_, err := ctfe.ValidateChain([][]byte{p.leaf(tt), p.caDER}, opts)
 			a = verifkit.B(err == nil)
 			if err != nil && !strings.Contains(err.Error(), "NotAfter") {
@@ -133,7 +191,7 @@ func TestVerifC18(t *testing.T) {
 		}); pn != "" {
 			out.Fail(key, "ValidateChain panic: "+pn)
 		}
-		if a != verifkit.B(want) {
+		if a != "x" && a != verifkit.B(want) {
 			out.Fail(key, fmt.Sprintf("log server admits=%s, start<=t<limit is %v", a, want))
 		}
 		// sub-second instant for the other two
@@ -145,36 +203,36 @@ func TestVerifC18(t *testing.T) {
 		// 2. the shard client with a single shard
 		rt := "x"
 		tlc, err := client.NewTemporalLogClient(&configpb.TemporalLogConfig{Shard: []*configpb.LogShardConfig{{Uri: "http://one", NotAfterStart: ts(lo), NotAfterLimit: ts(up)}}}, nil)
-		inverted := lo != nil && up != nil && !(lo.UnixNano() < up.UnixNano())
+		inverted := lo != nil && up != nil && !(cmpT(*lo, *up) < 0)
 		if (err != nil) != inverted {
 			out.Fail(key, fmt.Sprintf("single-shard construction err=%v, inverted=%v", err, inverted))
 		}
 		if err == nil {
-			idx, ierr := tlc.IndexByDate(sub)
+			idx, ierr := tlc.IndexByDate(reloc(r, sub))
 			rt = verifkit.B(ierr == nil && idx == 0)
 			if (ierr == nil) != wantSub {
-				out.Fail(key+fmt.Sprintf(" sub=%d", sub.UnixNano()), fmt.Sprintf("shard client routes=%v, start<=t<limit is %v", ierr == nil, wantSub))
+				out.Fail(key+" sub="+ns(sub), fmt.Sprintf("shard client routes=%v, start<=t<limit is %v", ierr == nil, wantSub))
 			}
 		}
 		// 3. the log-list filter (both bounds needed)
 		c := "x"
 		if lo != nil && up != nil {
-			ll := loglist3.LogList{Operators: []*loglist3.Operator{{Name: "op", Logs: []*loglist3.Log{{URL: "u", TemporalInterval: &loglist3.TemporalInterval{StartInclusive: *lo, EndExclusive: *up}}}}}}
-			got := ll.TemporallyCompatible(&x509.Certificate{NotAfter: sub})
+			ll := loglist3.LogList{Operators: []*loglist3.Operator{{Name: "op", Logs: []*loglist3.Log{{URL: "u", TemporalInterval: &loglist3.TemporalInterval{StartInclusive: reloc(r, *lo), EndExclusive: reloc(r, *up)}}}}}}
+			got := ll.TemporallyCompatible(&x509.Certificate{NotAfter: reloc(r, sub)})
 			kept := len(got.Operators) == 1 && len(got.Operators[0].Logs) == 1
 			c = verifkit.B(kept)
 			if kept != wantSub {
-				out.Fail(key+fmt.Sprintf(" sub=%d", sub.UnixNano()), fmt.Sprintf("log-list filter keeps=%v, start<=t<limit is %v", kept, wantSub))
+				out.Fail(key+" sub="+ns(sub), fmt.Sprintf("log-list filter keeps=%v, start<=t<limit is %v", kept, wantSub))
 			}
 		}
-		op := fmt.Sprintf("win %s %s %d %d", optStr(lo), optStr(up), tt.UnixNano(), sub.UnixNano())
+		op := fmt.Sprintf("win %s %s %s %s", optStr(lo), optStr(up), ns(tt), ns(sub))
 		out.T(op, a+" "+rt+" "+c)
 		if want {
 			out.Count("class:inside")
 		} else {
 			out.Count("class:outside")
 		}
-		if (lo != nil && lo.UnixNano() == tt.UnixNano()) || (up != nil && up.UnixNano() == tt.UnixNano()) {
+		if (lo != nil && cmpT(*lo, tt) == 0) || (up != nil && cmpT(*up, tt) == 0) {
 			out.Count("class:exact-boundary")
 		}
 		if it < 3 {
@@ -186,6 +244,7 @@ func TestVerifC18(t *testing.T) {
 	m := verifkit.N(800, 20000)
 	for it := 0; it < m; it++ {
 		k := 1 + r.Intn(5)
+		base = bases[r.Intn(len(bases))]
 		cur := base.Add(time.Duration(r.Intn(1000)) * time.Hour)
 		var los, ups []*time.Time
 		mode := r.Intn(8) // 0..4 contiguous, 5 gap, 6 inverted, 7 unbounded middle
@@ -213,7 +272,7 @@ func TestVerifC18(t *testing.T) {
 			switch mode {
 			case 5:
 				v := los[j].Add(time.Duration(r.Intn(3)-1) * time.Nanosecond)
-				if v.UnixNano() != los[j].UnixNano() {
+				if cmpT(v, *los[j]) != 0 {
 					bad = true
 				}
 				los[j] = &v
@@ -245,7 +304,7 @@ func TestVerifC18(t *testing.T) {
 		default:
 			when = base.Add(time.Duration(r.I64n(int64(1200 * time.Hour))))
 		}
-		key := fmt.Sprintf("shards%s t=%d", desc, when.UnixNano())
+		key := fmt.Sprintf("shards%s t=%s", desc, ns(when))
 		ans := ""
 		tlc, err := client.NewTemporalLogClient(&configpb.TemporalLogConfig{Shard: shards}, nil)
 		if err != nil {
@@ -258,7 +317,7 @@ func TestVerifC18(t *testing.T) {
 			if bad {
 				out.Fail(key, "a non-contiguous / inverted / unbounded-extended shard list was accepted")
 			}
-			idx, ierr := tlc.IndexByDate(when)
+			idx, ierr := tlc.IndexByDate(reloc(r, when))
 			cnt, which := 0, -1
 			for i := 0; i < k; i++ {
 				if inWin(los[i], ups[i], when) {
@@ -280,7 +339,7 @@ func TestVerifC18(t *testing.T) {
 				}
 			}
 		}
-		op := fmt.Sprintf("shards %d%s %d", k, desc, when.UnixNano())
+		op := fmt.Sprintf("shards %d%s %s", k, desc, ns(when))
 		out.T(op, ans)
 		if it < 2 {
 			out.Sample(op + " => " + ans)
